@@ -73,8 +73,27 @@ pub fn composite(comps: &[(u16, u16, i32, i32, &[i16])], instr: &[u8], glyphs: &
     }
 }
 
+/// (points, contours, depth) of a glyph with its components flattened.
+fn flat(glyphs: &[GlyphRec], g: usize) -> (u16, u16, u16) {
+    let r = &glyphs[g];
+    match r.kind {
+        Kind::Composite => {
+            let mut acc = (0u16, 0u16, 0u16);
+            for c in &r.comps {
+                let x = flat(glyphs, c.gid as usize);
+                acc = (acc.0 + x.0, acc.1 + x.1, acc.2.max(x.2 + 1));
+            }
+            acc
+        }
+        Kind::Simple => (r.pts.len() as u16, r.ends.len() as u16, 0),
+        _ => (0, 0, 0),
+    }
+}
+
 /// A complete TrueType font from glyph records. lsb = xMin of the header for every glyph, advance
-/// 500 + 7 * gid for the long metrics.
+/// 500 + 7 * gid for the long metrics. head (bounding box), hhea (advanceWidthMax, min side bearings,
+/// xMaxExtent) and maxp (maxima) are CONSISTENT with the glyphs and metrics: the derived fields of the
+/// source hold, so what a writer copies or recomputes can be judged against the new tables.
 pub fn build_tt(glyphs: &[GlyphRec], long: bool, nhm: usize, style: u8, extra: &[(&str, Vec<u8>)]) -> Tables {
     let n = glyphs.len();
     let recs: Vec<Vec<u8>> = glyphs.iter().map(|g| write_glyph(g, style)).collect();
@@ -83,10 +102,39 @@ pub fn build_tt(glyphs: &[GlyphRec], long: bool, nhm: usize, style: u8, extra: &
     let longm: Vec<(u16, i16)> = (0..nhm).map(|g| (500 + 7 * g as u16, glyphs[g].x_min())).collect();
     let lsbs: Vec<i16> = (nhm..n).map(|g| glyphs[g].x_min()).collect();
     let cmap: Vec<(u32, u16)> = (1..n.min(90)).map(|g| (0x20 + g as u32, g as u16)).collect();
+    // derived fields
+    let adv = |g: usize| longm[g.min(nhm - 1)].0 as i32;
+    let outl: Vec<usize> = (0..n).filter(|g| glyphs[*g].kind != Kind::Empty && !(glyphs[*g].kind == Kind::Simple && glyphs[*g].pts.is_empty())).collect();
+    let bb = |k: usize, f: fn(i16, i16) -> i16| outl.iter().map(|g| glyphs[*g].bbox[k]).reduce(f).unwrap_or(0);
+    let bbox = (bb(0, i16::min), bb(1, i16::min), bb(2, i16::max), bb(3, i16::max));
+    let min_lsb = outl.iter().map(|g| glyphs[*g].bbox[0] as i32).min().unwrap_or(0);
+    let min_rsb = outl.iter().map(|g| adv(*g) - glyphs[*g].bbox[2] as i32).min().unwrap_or(0);
+    let x_ext = outl.iter().map(|g| glyphs[*g].bbox[2] as i32).max().unwrap_or(0);
+    let mut hhea = W::new();
+    hhea.u16(1).u16(0).i16(800).i16(-200).i16(0).u16(longm.iter().map(|m| m.0).max().unwrap_or(0));
+    hhea.i16(min_lsb as i16).i16(min_rsb as i16).i16(x_ext as i16);
+    hhea.i16(1).i16(0).i16(0).i16(0).i16(0).i16(0).i16(0).i16(0).u16(nhm as u16);
+    let simple = |f: fn(&GlyphRec) -> usize| glyphs.iter().filter(|g| g.kind == Kind::Simple).map(f).max().unwrap_or(0) as u16;
+    let comp: Vec<(u16, u16, u16, u16)> = (0..n)
+        .filter(|g| glyphs[*g].kind == Kind::Composite)
+        .map(|g| {
+            let f = flat(glyphs, g);
+            (f.0, f.1, glyphs[g].comps.len() as u16, f.2)
+        })
+        .collect();
+    let mut maxp = W::new();
+    maxp.u32(0x00010000).u16(n as u16);
+    maxp.u16(simple(|g| g.pts.len())).u16(simple(|g| g.ends.len()));
+    maxp.u16(comp.iter().map(|c| c.0).max().unwrap_or(0)).u16(comp.iter().map(|c| c.1).max().unwrap_or(0));
+    for v in [1u16, 0, 0, 0, 0, 0] {
+        maxp.u16(v);
+    }
+    maxp.u16(glyphs.iter().map(|g| g.instr.len()).max().unwrap_or(0) as u16);
+    maxp.u16(comp.iter().map(|c| c.2).max().unwrap_or(0)).u16(comp.iter().map(|c| c.3).max().unwrap_or(0));
     let mut t: Tables = vec![
-        ("head".into(), fontgen::head(1000, long, (-500, -500, 1500, 1500))),
-        ("hhea".into(), fontgen::hhea(nhm as u16, 800, -200, 500 + 7 * n as u16)),
-        ("maxp".into(), fontgen::maxp_tt(n as u16)),
+        ("head".into(), fontgen::head(1000, long, bbox)),
+        ("hhea".into(), hhea.done()),
+        ("maxp".into(), maxp.done()),
         ("OS/2".into(), fontgen::os2_v4(0x20, 0x7E)),
         ("hmtx".into(), fontgen::hmtx(&longm, &lsbs)),
         ("cmap".into(), fontgen::cmap_format12(&cmap)),
@@ -364,7 +412,14 @@ pub fn var_font(variant: u8) -> Tables {
     );
     // 16: WE_HAVE_INSTRUCTIONS with an empty block; 17: the flag on the first of two components
     add(&mut g, &[(XY | INSTR, 1, 100, 0, &[])], &[], vec![comp_tuple([ONE, 0], &[(60, 0)], 0)]);
-    add(&mut g, &[(XY | INSTR, 2, 0, 100, &[]), (XY, 1, 1, 1, &[])], &[0x42, 0x43, 0x44], vec![comp_tuple([ONE, 0], &[(0, 60), (0, 0)], 0)]);
+    // 17 is the widest glyph of variant 0 (advance 500 + 7 * 17): its advance SHRINKS towards A = +1 (so the
+    // widest advance of the instance is smaller than the default master's) and GROWS towards A = -1
+    add(
+        &mut g,
+        &[(XY | INSTR, 2, 0, 100, &[]), (XY, 1, 1, 1, &[])],
+        &[0x42, 0x43, 0x44],
+        vec![comp_tuple([ONE, 0], &[(0, 60), (0, 0)], -40), comp_tuple([-ONE, 0], &[(0, 0), (0, 0)], 25)],
+    );
     let n = g.len();
     let gvar = gvar_bytes(2, &tv, long);
     build_tt(&g, long, if long { 6 } else { n }, variant, &[("fvar", fvar_bytes(2)), ("gvar", gvar)])
